@@ -5,23 +5,47 @@ Open Scope N_scope.
 
 (** * The handler *)
 
+(** from a state in which no header went out: the handler writes nothing (it returns, panics, or its
+    first WriteHeader is rejected by net/http) *)
 Fixpoint writes_nothing (sc : script) : bool :=
   match sc with
   | [] => true
   | Nop :: r => writes_nothing r
   | Panic _ :: _ => true
+  | Hdr c :: _ => invalid_code c
   | _ => false
   end.
 
-Lemma exec_panic sc : forall w, snd (exec true sc w) = panic_of sc.
-Proof. induction sc as [|a r IH]; intros w; [reflexivity|]. destruct a; cbn [exec panic_of]; auto. Qed.
+Lemma started_write_header c w : started (rw_write_header c w) = true.
+Proof. destruct w as [st [h|] wb]; reflexivity. Qed.
+Lemma started_write ch w : started (rw_write ch w) = true.
+Proof.
+  destruct w as [st wh wb]. unfold started, rw_write, origin_write, origin_write_header, rw_write_header.
+  cbn [status wire_hdr wbody]. destruct (st =? 0); destruct wh; reflexivity.
+Qed.
+Lemma started_flush fr w : started (rw_flush fr w) = true.
+Proof. destruct w as [st [h|] wb]; reflexivity. Qed.
+
+Lemma exec_panic sc : forall w, snd (exec true sc w) = panic_from (started w) sc.
+Proof.
+  induction sc as [|a r IH]; intros w; [reflexivity|]. destruct a; cbn [exec panic_from]; auto.
+  - unfold origin_rejects. destruct (negb (started w) && invalid_code code); [reflexivity|].
+    rewrite IH, started_write_header. reflexivity.
+  - rewrite IH, started_write. reflexivity.
+  - rewrite IH, started_flush. reflexivity.
+Qed.
+Lemma exec_panic0 sc : snd (exec true sc rw0) = panic_of sc.
+Proof. apply exec_panic. Qed.
 
 Lemma pbh_spec sc : panics_before_header sc = true <-> writes_nothing sc = true /\ panic_of sc <> None.
 Proof.
-  induction sc as [|a r IH]; cbn [panics_before_header writes_nothing panic_of].
+  unfold panic_of.
+  induction sc as [|a r IH]; cbn [panics_before_header writes_nothing panic_from].
   - split; [discriminate | intros [_ H]; contradiction].
   - destruct a; try exact IH.
-    + split; [discriminate | intros [H _]; discriminate].
+    + cbn [negb andb]. destruct (invalid_code code).
+      * split; [intros _; split; [reflexivity | discriminate] | reflexivity].
+      * split; [discriminate | intros [H _]; discriminate].
     + split; [discriminate | intros [H _]; discriminate].
     + split; [discriminate | intros [H _]; discriminate].
     + split; [intros _; split; [reflexivity | discriminate] | reflexivity].
@@ -39,63 +63,67 @@ Qed.
 Lemma status_flush w : status (rw_flush true w) = if status w =? 0 then 200 else status w.
 Proof. reflexivity. Qed.
 
-Lemma exec_status_nz sc : forall w, codes_ok sc = true -> status w <> 0 -> status (fst (exec true sc w)) <> 0.
+(** once a header went out the recorded status stays non-zero *)
+Lemma exec_status_nz sc : forall w, codes_ok_from true sc = true -> started w = true -> status w <> 0 ->
+  status (fst (exec true sc w)) <> 0.
 Proof.
-  induction sc as [|a r IH]; intros w Hc Hs; cbn [exec fst]; [assumption|].
-  destruct a; cbn [codes_ok] in Hc.
+  induction sc as [|a r IH]; intros w Hc Hst Hs; cbn [exec fst]; [assumption|].
+  destruct a; cbn [codes_ok_from] in Hc.
   - apply IH; assumption.
-  - apply andb_prop in Hc. destruct Hc as [Hc1 Hc]. apply andb_prop in Hc1. destruct Hc1 as [Hlo _].
-    apply N.leb_le in Hlo. apply IH; [assumption|]. rewrite status_write_header. lia.
-  - apply IH; [assumption|]. rewrite status_write. destruct (status w =? 0); [lia | assumption].
-  - apply IH; [assumption|]. rewrite status_flush. destruct (status w =? 0); [lia | assumption].
+  - unfold origin_rejects. rewrite Hst. cbn [negb andb].
+    apply andb_prop in Hc. destruct Hc as [Hnz Hc]. apply negb_true_iff, N.eqb_neq in Hnz.
+    apply IH; [assumption | apply started_write_header | rewrite status_write_header; assumption].
+  - apply IH; [assumption | apply started_write |]. rewrite status_write. destruct (status w =? 0); [lia | assumption].
+  - apply IH; [assumption | apply started_flush |]. rewrite status_flush. destruct (status w =? 0); [lia | assumption].
   - assumption.
 Qed.
 
-Lemma exec_status0 sc : forall w, codes_ok sc = true ->
-  (status (fst (exec true sc w)) = 0 <-> status w = 0 /\ writes_nothing sc = true).
+Lemma exec_status0 sc : forall w, codes_ok_from false sc = true -> started w = false -> status w = 0 ->
+  (status (fst (exec true sc w)) = 0 <-> writes_nothing sc = true).
 Proof.
-  induction sc as [|a r IH]; intros w Hc; cbn [exec fst writes_nothing].
+  induction sc as [|a r IH]; intros w Hc Hst Hs; cbn [exec fst writes_nothing].
   - tauto.
-  - destruct a; cbn [codes_ok] in Hc.
+  - destruct a; cbn [codes_ok_from] in Hc.
     + apply IH; assumption.
-    + apply andb_prop in Hc. destruct Hc as [Hc1 Hc]. apply andb_prop in Hc1. destruct Hc1 as [Hlo _].
-      apply N.leb_le in Hlo. split.
-      * intros H. exfalso. revert H. apply exec_status_nz; [assumption|]. rewrite status_write_header. lia.
-      * intros [_ H]; discriminate.
-    + split.
-      * intros H. exfalso. revert H. apply exec_status_nz; [assumption|]. rewrite status_write.
-        destruct (status w =? 0) eqn:E; [lia | apply N.eqb_neq; assumption].
-      * intros [_ H]; discriminate.
-    + split.
-      * intros H. exfalso. revert H. apply exec_status_nz; [assumption|]. rewrite status_flush.
-        destruct (status w =? 0) eqn:E; [lia | apply N.eqb_neq; assumption].
-      * intros [_ H]; discriminate.
+    + unfold origin_rejects. rewrite Hst. cbn [negb andb].
+      destruct (invalid_code code) eqn:Ei.
+      * cbn [fst]. tauto.
+      * apply andb_prop in Hc. destruct Hc as [Hlo Hc]. apply N.leb_le in Hlo. split; [|discriminate].
+        intros H. exfalso. revert H.
+        apply exec_status_nz; [assumption | apply started_write_header | rewrite status_write_header; lia].
+    + split; [|discriminate].
+      intros H. exfalso. revert H. apply exec_status_nz; [assumption | apply started_write |].
+      rewrite status_write, Hs. cbn. lia.
+    + split; [|discriminate].
+      intros H. exfalso. revert H. apply exec_status_nz; [assumption | apply started_flush |].
+      rewrite status_flush, Hs. cbn. lia.
     + cbn [fst]. tauto.
 Qed.
 
-Lemma exec_writes_nothing sc : forall w, writes_nothing sc = true -> fst (exec true sc w) = w.
+Lemma exec_writes_nothing sc : forall w, started w = false -> writes_nothing sc = true -> fst (exec true sc w) = w.
 Proof.
-  induction sc as [|a r IH]; intros w H; [reflexivity|].
+  induction sc as [|a r IH]; intros w Hst H; [reflexivity|].
   destruct a; cbn [writes_nothing] in H; try discriminate; cbn [exec]; auto.
+  unfold origin_rejects. rewrite Hst, H. reflexivity.
 Qed.
 
 (** [agree]: what ResponseWriter recorded is what went out *)
 Definition agree (w : rw) : Prop :=
   match wire_hdr w with None => status w = 0 | Some c => status w = c /\ c <> 0 end.
-Definition started (w : rw) : bool := match wire_hdr w with Some _ => true | None => false end.
 
-Lemma exec_agree sc : forall w, agree w -> codes_ok sc = true -> set_once_from (started w) sc = true ->
+Lemma exec_agree sc : forall w, agree w -> codes_ok_from (started w) sc = true -> set_once_from (started w) sc = true ->
   agree (fst (exec true sc w)).
 Proof.
   induction sc as [|a r IH]; intros w Ha Hc Hs; cbn [exec fst]; [assumption|].
-  destruct a; cbn [codes_ok set_once_from] in *.
+  destruct a; cbn [codes_ok_from set_once_from] in *.
   - apply IH; assumption.
-  - apply andb_prop in Hc. destruct Hc as [Hc1 Hc]. apply andb_prop in Hc1. destruct Hc1 as [Hlo _].
-    apply N.leb_le in Hlo.
-    unfold started in Hs. destruct (wire_hdr w) eqn:Ew; [discriminate|].
-    apply IH; [| assumption |].
+  - unfold origin_rejects. unfold started in Hs, Hc |- *. destruct (wire_hdr w) eqn:Ew; [discriminate|].
+    cbn [negb andb]. destruct (invalid_code code) eqn:Ei; [assumption|].
+    apply andb_prop in Hc. destruct Hc as [Hlo Hc]. apply N.leb_le in Hlo.
+    apply IH.
     + unfold agree, rw_write_header, origin_write_header. rewrite Ew. cbn. split; [reflexivity | lia].
-    + unfold started, rw_write_header, origin_write_header. rewrite Ew. cbn. assumption.
+    + rewrite started_write_header. assumption.
+    + rewrite started_write_header. assumption.
   - assert (Hw : agree (rw_write chunk w) /\ started (rw_write chunk w) = true).
     { destruct w as [st wh wb]. unfold agree in Ha. cbn [wire_hdr status] in Ha.
       unfold rw_write, agree, started. cbn [status].
@@ -103,7 +131,7 @@ Proof.
       - destruct Ha as [Hst Hn]. assert (E : (st =? 0) = false) by (apply N.eqb_neq; lia).
         rewrite E. cbn. auto.
       - subst st. cbn. split; [split; [reflexivity | lia] | reflexivity]. }
-    destruct Hw as [Hw1 Hw2]. apply IH; [assumption | assumption | rewrite Hw2; assumption].
+    destruct Hw as [Hw1 Hw2]. apply IH; [assumption | rewrite Hw2; assumption | rewrite Hw2; assumption].
   - assert (Hw : agree (rw_flush true w) /\ started (rw_flush true w) = true).
     { destruct w as [st wh wb]. unfold agree in Ha. cbn [wire_hdr status] in Ha.
       unfold rw_flush, origin_write_header, agree, started. cbn [status wire_hdr wbody andb].
@@ -111,7 +139,7 @@ Proof.
       - destruct Ha as [Hst Hn]. assert (E : (st =? 0) = false) by (apply N.eqb_neq; lia).
         rewrite E. cbn. auto.
       - subst st. cbn. split; [split; [reflexivity | lia] | reflexivity]. }
-    destruct Hw as [Hw1 Hw2]. apply IH; [assumption | assumption | rewrite Hw2; assumption].
+    destruct Hw as [Hw1 Hw2]. apply IH; [assumption | rewrite Hw2; assumption | rewrite Hw2; assumption].
   - assumption.
 Qed.
 
@@ -170,11 +198,11 @@ Section RelayProofs.
   Proof.
     intros Htot Hi Hc Hna.
     pose proof (info_implies_error thr Hi) as He.
-    pose proof (exec_panic sc rw0) as Hp.
-    pose proof (exec_status0 sc rw0 Hc) as Hs0.
+    pose proof (exec_panic0 sc) as Hp.
+    pose proof (exec_status0 sc rw0 Hc eq_refl eq_refl) as Hs0.
     pose proof (pbh_spec sc) as Hpbh.
     assert (Hag : set_once sc = true -> agree (fst (exec true sc rw0))).
-    { intros Hso. apply exec_agree; [apply agree_rw0 | assumption | exact Hso]. }
+    { intros Hso. apply exec_agree; [apply agree_rw0 | exact Hc | exact Hso]. }
     assert (Hbody0 : forall w : rw, status w = 0 -> writes_nothing sc = true -> True) by auto.
     unfold logged, wire, body, relay, relay_gen.
     destruct (exec true sc rw0) as [w1 p] eqn:Ex. cbn [fst snd] in *. subst p.
@@ -187,7 +215,7 @@ Section RelayProofs.
         apply N.eqb_eq in Est.
         assert (Hwn : writes_nothing sc = true) by (apply Hs0; assumption).
         assert (Hfresh : wire_hdr w1 = None /\ wbody w1 = []).
-        { pose proof (exec_writes_nothing sc rw0 Hwn) as G. rewrite Ex in G. cbn [fst] in G. subst w1.
+        { pose proof (exec_writes_nothing sc rw0 eq_refl Hwn) as G. rewrite Ex in G. cbn [fst] in G. subst w1.
           split; reflexivity. }
         destruct Hfresh as [Hw Hb].
         assert (Hagw : agree w1) by (unfold agree; rewrite Hw; assumption).
@@ -205,7 +233,7 @@ Section RelayProofs.
         rewrite Est. cbn [escaped relay500 final records app logged_of].
         apply N.eqb_neq in Est.
         repeat split; try reflexivity; try discriminate.
-        * intros H. apply Hpbh in H. destruct H as [H _]. exfalso. apply Est. apply Hs0. split; [reflexivity | assumption].
+        * intros H. apply Hpbh in H. destruct H as [H _]. exfalso. apply Est. apply Hs0. assumption.
         * intros Hso. specialize (Hag Hso). unfold agree in Hag. destruct (wire_hdr w1); [destruct Hag; assumption | contradiction].
     - (* no panic *)
       cbn [escaped relay500 final records app].
@@ -228,8 +256,8 @@ Section RelayProofs.
     /\ records r = match panic_of sc with Some p => [ERR p (rid rq)] | None => [] end.
   Proof.
     intros Htot Hi He Hc Hna.
-    pose proof (exec_panic sc rw0) as Hp.
-    pose proof (exec_status0 sc rw0 Hc) as Hs0.
+    pose proof (exec_panic0 sc) as Hp.
+    pose proof (exec_status0 sc rw0 Hc eq_refl eq_refl) as Hs0.
     pose proof (pbh_spec sc) as Hpbh.
     unfold relay, relay_gen. destruct (exec true sc rw0) as [w1 p] eqn:Ex. cbn [fst snd] in *. subst p.
     unfold recover_block, end_block. rewrite Hi, He.
@@ -252,8 +280,8 @@ Section RelayProofs.
     /\ records r = [].
   Proof.
     intros Hi He Hc Hna.
-    pose proof (exec_panic sc rw0) as Hp.
-    pose proof (exec_status0 sc rw0 Hc) as Hs0.
+    pose proof (exec_panic0 sc) as Hp.
+    pose proof (exec_status0 sc rw0 Hc eq_refl eq_refl) as Hs0.
     pose proof (pbh_spec sc) as Hpbh.
     unfold relay, relay_gen. destruct (exec true sc rw0) as [w1 p] eqn:Ex. cbn [fst snd] in *. subst p.
     unfold recover_block, end_block. rewrite Hi, He.
@@ -273,7 +301,7 @@ Section RelayProofs.
     escaped r = false /\ relay500 r = false
     /\ Forall (fun x => match x with ERR _ _ => False | _ => True end) (records r).
   Proof.
-    intros Hpo. pose proof (exec_panic sc rw0) as Hp.
+    intros Hpo. pose proof (exec_panic0 sc) as Hp.
     unfold relay, relay_gen. destruct (exec true sc rw0) as [w1 p] eqn:Ex. cbn [snd] in Hp. subst p. rewrite Hpo.
     unfold recover_block, end_block.
     destruct (enabled thr LInfo); cbn [escaped relay500 records app]; repeat split; repeat constructor.
@@ -285,7 +313,7 @@ Section RelayProofs.
     render v = None -> enabled thr LError = true -> panic_of sc = Some (PV v) ->
     let r := relay render thr rq sc in escaped r = true /\ relay500 r = false.
   Proof.
-    intros Hr He Hpo. pose proof (exec_panic sc rw0) as Hp.
+    intros Hr He Hpo. pose proof (exec_panic0 sc) as Hp.
     unfold relay, relay_gen. destruct (exec true sc rw0) as [w1 p] eqn:Ex. cbn [snd] in Hp. subst p. rewrite Hpo.
     unfold recover_block. rewrite He, Hr.
     destruct (end_block thr rq w1). split; reflexivity.
